@@ -1,0 +1,306 @@
+//go:build verif
+
+// Verification hooks (C19, real sockets): two commands of the scripted driver in verif_hooks.go
+// that run the real copyLoop / serverHandler over real loopback TCP connections.
+//
+//	proxyrelay <local-first|proxy-first>
+//	    a loopback HTTP CONNECT proxy is started, the real http proxy dialer (proxy_http.go,
+//	    through proxy.FromURL) dials a target through it, and the real copyLoop relays between
+//	    the resulting httpConn and an in-memory conn; either the in-memory side or the proxy
+//	    side ends first.  Reply: ok returned=<0|1> ret=<class> proxy_saw_close=<0|1>
+//	    local_closed=<0|1> to_proxy=<bytes> (bounded waits of 3 s, reported when exceeded)
+//	orburst <bytes> <read-chunk> <read-pause-us>
+//	    the real serverHandler (stub transport: WrapConn hands out an in-memory conn that delivers
+//	    <bytes> of pattern data and then EOF) with a loopback ORPort that reads <read-chunk> bytes
+//	    every <read-pause-us>.  Reply: ok sent=<n> got=<n> hash=<ok|differs> end=<eof|error text>
+package main
+
+import (
+	"bufio"
+	"bytes"
+	"crypto/sha256"
+	"fmt"
+	"io"
+	"net"
+	"net/http"
+	"net/url"
+	"os"
+	"strconv"
+	"strings"
+	"sync"
+	"time"
+
+	pt "gitlab.torproject.org/tpo/anti-censorship/pluggable-transports/goptlib"
+	"golang.org/x/net/proxy"
+)
+
+func verifTCPCommand(w []string) string {
+	switch w[0] {
+	case "proxyrelay":
+		if len(w) != 2 {
+			return "bad-op"
+		}
+		return verifProxyRelay(w[1])
+	case "orburst":
+		if len(w) != 4 {
+			return "bad-op"
+		}
+		n, e1 := strconv.Atoi(w[1])
+		chunk, e2 := strconv.Atoi(w[2])
+		pause, e3 := strconv.Atoi(w[3])
+		if e1 != nil || e2 != nil || e3 != nil || n < 0 || chunk < 1 {
+			return "bad-op"
+		}
+		return verifOrBurst(n, chunk, time.Duration(pause)*time.Microsecond)
+	}
+	return "bad-op"
+}
+
+// verifMemConn: an in-memory conn: serves `data`, then EOF once `end` is closed (at once if
+// end == nil); records that it was closed.
+type verifMemConn struct {
+	mu     sync.Mutex
+	rd     *bytes.Reader
+	end    chan struct{}
+	closed chan struct{}
+	once   sync.Once
+	wrote  int
+}
+
+func verifNewMemConn(data []byte, end chan struct{}) *verifMemConn {
+	return &verifMemConn{rd: bytes.NewReader(data), end: end, closed: make(chan struct{})}
+}
+
+func (c *verifMemConn) Read(p []byte) (int, error) {
+	c.mu.Lock()
+	if c.rd.Len() > 0 {
+		n, _ := c.rd.Read(p)
+		c.mu.Unlock()
+		return n, nil
+	}
+	c.mu.Unlock()
+	if c.end != nil {
+		select {
+		case <-c.end:
+		case <-c.closed:
+			return 0, verifClosed
+		}
+	}
+	select {
+	case <-c.closed:
+		return 0, verifClosed
+	default:
+	}
+	return 0, io.EOF
+}
+
+func (c *verifMemConn) Write(p []byte) (int, error) {
+	select {
+	case <-c.closed:
+		return 0, verifClosed
+	default:
+	}
+	c.mu.Lock()
+	c.wrote += len(p)
+	c.mu.Unlock()
+	return len(p), nil
+}
+
+func (c *verifMemConn) Close() error {
+	c.once.Do(func() { close(c.closed) })
+	return nil
+}
+func (c *verifMemConn) LocalAddr() net.Addr { return &net.TCPAddr{IP: net.IPv4(127, 0, 0, 1), Port: 1} }
+func (c *verifMemConn) RemoteAddr() net.Addr {
+	return &net.TCPAddr{IP: net.IPv4(127, 0, 0, 1), Port: 2}
+}
+func (c *verifMemConn) SetDeadline(_ time.Time) error      { return nil }
+func (c *verifMemConn) SetReadDeadline(_ time.Time) error  { return nil }
+func (c *verifMemConn) SetWriteDeadline(_ time.Time) error { return nil }
+
+func verifProxyRelay(order string) string {
+	ln, err := net.ListenTCP("tcp", &net.TCPAddr{IP: net.IPv4(127, 0, 0, 1)})
+	if err != nil {
+		return "error listen"
+	}
+	defer ln.Close()
+	sawClose := make(chan struct{}) // the proxy saw the client's end of the tunnel close
+	proxyEnd := make(chan struct{}) // tells the proxy to end its side first
+	var toProxy int
+	var pmu sync.Mutex
+	go func() {
+		c, err := ln.AcceptTCP()
+		if err != nil {
+			return
+		}
+		defer c.Close()
+		br := bufio.NewReader(c)
+		req, err := http.ReadRequest(br)
+		if err != nil || req.Method != http.MethodConnect {
+			return
+		}
+		io.WriteString(c, "HTTP/1.1 200 Connection established\r\n\r\n")
+		io.WriteString(c, "data from the far side")
+		go func() {
+			<-proxyEnd
+			c.CloseWrite() // the far side ends: EOF towards the client, keep listening
+		}()
+		buf := make([]byte, 4096)
+		for {
+			n, err := br.Read(buf)
+			pmu.Lock()
+			toProxy += n
+			pmu.Unlock()
+			if err != nil {
+				close(sawClose) // EOF or reset: the client's end is gone
+				return
+			}
+		}
+	}()
+	u, _ := url.Parse("http://" + ln.Addr().String())
+	dialer, err := proxy.FromURL(u, proxy.Direct)
+	if err != nil {
+		return "error " + strings.ReplaceAll(err.Error(), " ", "_")
+	}
+	remote, err := dialer.Dial("tcp", "127.0.0.1:9")
+	if err != nil {
+		return "error " + strings.ReplaceAll(err.Error(), " ", "_")
+	}
+	localEnd := make(chan struct{})
+	local := verifNewMemConn([]byte("data from the local side"), localEnd)
+	done := make(chan error, 1)
+	go func() { done <- copyLoop(local, remote) }()
+	time.Sleep(30 * time.Millisecond) // let both directions carry their data
+	switch order {
+	case "local-first":
+		close(localEnd)
+	case "proxy-first":
+		close(proxyEnd)
+	default:
+		return "bad-op"
+	}
+	returned, ret := 0, "-"
+	select {
+	case err := <-done:
+		returned, ret = 1, verifErrClass(err)
+	case <-time.After(3 * time.Second):
+	}
+	saw := 0
+	select {
+	case <-sawClose:
+		saw = 1
+	case <-time.After(3 * time.Second):
+	}
+	localClosed := 0
+	select {
+	case <-local.closed:
+		localClosed = 1
+	default:
+	}
+	// release whatever is left
+	local.Close()
+	remote.Close()
+	select {
+	case <-proxyEnd:
+	default:
+		close(proxyEnd)
+	}
+	pmu.Lock()
+	defer pmu.Unlock()
+	if strings.HasPrefix(ret, "other(") {
+		ret = "other"
+	}
+	return fmt.Sprintf("ok returned=%d ret=%s proxy_saw_close=%d local_closed=%d to_proxy=%d", returned, ret, saw, localClosed, toProxy)
+}
+
+func verifBurstPattern(n int) []byte {
+	b := make([]byte, n)
+	for i := range b {
+		b[i] = byte(i) ^ byte(i>>8)*7 ^ byte(i>>16)*13
+	}
+	return b
+}
+
+func verifOrBurst(n, chunk int, pause time.Duration) string {
+	ln, err := net.ListenTCP("tcp", &net.TCPAddr{IP: net.IPv4(127, 0, 0, 1)})
+	if err != nil {
+		return "error listen"
+	}
+	defer ln.Close()
+	type result struct {
+		got int
+		sum [32]byte
+		end string
+	}
+	resc := make(chan result, 1)
+	go func() {
+		c, err := ln.AcceptTCP()
+		if err != nil {
+			resc <- result{end: "accept failed"}
+			return
+		}
+		defer c.Close()
+		h := sha256.New()
+		buf := make([]byte, chunk)
+		got := 0
+		for {
+			m, err := c.Read(buf)
+			h.Write(buf[:m])
+			got += m
+			if err != nil {
+				r := result{got: got, end: "eof"}
+				if err != io.EOF {
+					r.end = strings.ReplaceAll(err.Error(), " ", "_")
+					if i := strings.LastIndex(r.end, ":_"); i >= 0 {
+						r.end = r.end[i+2:]
+					}
+				}
+				copy(r.sum[:], h.Sum(nil))
+				resc <- r
+				return
+			}
+			if pause > 0 {
+				time.Sleep(pause)
+			}
+		}
+	}()
+	data := verifBurstPattern(n)
+	want := sha256.Sum256(data)
+	// the logger stays off; the monitor's events are drained
+	m := &termMonitor{sigChan: make(chan os.Signal), handlerChan: make(chan int)}
+	termMon = m
+	stop := make(chan struct{})
+	defer close(stop)
+	go func() {
+		for {
+			select {
+			case <-m.handlerChan:
+			case <-stop:
+				return
+			}
+		}
+	}()
+	peer := verifNewMemConn(nil, make(chan struct{})) // the accepted conn itself stays silent
+	f := &verifLogFactory{remote: verifNewMemConn(data, nil)}
+	info := &pt.ServerInfo{OrAddr: ln.Addr().(*net.TCPAddr)}
+	done := make(chan struct{})
+	go func() {
+		defer close(done)
+		serverHandler(f, peer, info)
+	}()
+	select {
+	case <-done:
+	case <-time.After(10 * time.Second):
+		return "stuck serverHandler"
+	}
+	select {
+	case r := <-resc:
+		hash := "ok"
+		if r.sum != want {
+			hash = "differs"
+		}
+		return fmt.Sprintf("ok sent=%d got=%d hash=%s end=%s", n, r.got, hash, r.end)
+	case <-time.After(10 * time.Second):
+		return "stuck orport"
+	}
+}
